@@ -68,6 +68,11 @@ func (w *ecKWSupport) unwrap(block interface{}, encryptedKey []byte) ([]byte, er
 		return nil, errors.New("unwrap support: EC wrap with invalid cipher block type")
 	}
 
+	// go-jose's AES key unwrap sizes a slice by len/8 - 1: an empty input makes it panic.
+	if len(encryptedKey) == 0 {
+		return nil, errors.New("unwrap support: EC unwrap of an empty key")
+	}
+
 	return josecipher.KeyUnwrap(blockCipher, encryptedKey)
 }
 
